@@ -218,7 +218,7 @@ func c03Pref64(c *Ctx) {
 	pp := c.P.Func("internal/config", "parsePlugins")
 	if pp != nil {
 		fn := c.fname(pp)
-		ps, _ := c.XO.Paths(pp, an.PathOpts{MaxPaths: 400000, EmitCut: true})
+		ps, _ := c.XO.Paths(pp, an.PathOpts{MaxPaths: 400000, EmitCut: true, InlinePaths: c.helperInline(pp)})
 		nCalls := 0
 		bad := ""
 		for _, p := range ps {
